@@ -333,6 +333,9 @@ def ival(b, o, bb, depth=0):
         if op == "Shr" and y[0] >= 0 and x[0] >= 0:
             return (x[0] >> int(y[1]) if y[1] != INF else 0, x[1] >> int(y[0]))
         return None
+    n = array_len(b, o)
+    if n is not None:
+        return (n, n)
     sid = _len_target(b, o)
     if sid is not None:
         return len_bounds(b, bb, sid)
@@ -358,6 +361,53 @@ def _operand_ty(b, op):
     return None
 
 
+def _unit_ratio_index(b, io, ln, bb):
+    """idx = round((a - m) / (M - m) * K) as usize with K = len - 1: the division comes first, so for m <= a <= M the
+    quotient is a correctly rounded value <= 1.0 and the product is <= K exactly; NaN and negative products saturate to 0
+    in the float->usize cast.  Hoisting K / (M - m) out of the loop breaks this (the product can exceed K)."""
+    if ln is None or ln[0] != ln[1]:
+        return None
+    if not (io[0] == "cast" and len(io) > 3 and io[3] in ("f64", "f32") and io[2] == "usize"):
+        return None
+    x = io[1]
+    if not (x[0] == "call" and x[1].callee.get("name") in ("ceil", "floor", "round", "trunc") and x[1].args):
+        return None
+    m = b.origin(x[1].args[0])
+    if not (m[0] == "binop" and m[1] == "Mul"):
+        return None
+    for ratio, scale in ((m[2], m[3]), (m[3], m[2])):
+        sc = scale
+        if sc[0] == "cast":
+            sc = sc[1]
+        sv = ival(b, sc, bb)
+        if sv is None or sv[0] != sv[1] or sv[0] != ln[0] - 1:
+            continue
+        if not (ratio[0] == "binop" and ratio[1] == "Div"):
+            continue
+        def sub_rhs(o):
+            if o[0] == "binop" and o[1] == "Sub":
+                return o[3]
+            if o[0] == "call" and o[1].callee.get("name") == "sub" and len(o[1].args) == 2:
+                return b.origin(o[1].args[1])
+            return None
+        nr, dr = sub_rhs(ratio[2]), sub_rhs(ratio[3])
+        def lid(o):
+            if o is None:
+                return None
+            if o[0] == "local":
+                return ("l", o[1])
+            if o[0] == "phi" and len(o) > 2:
+                return ("l", o[2])
+            if o[0] == "param":
+                return ("p", o[1])
+            return None
+        if lid(nr) is None or lid(nr) != lid(dr):
+            continue
+        return ("index = round((a - m) / (M - m) * %d) as usize, division first: quotient <= 1 for m <= a <= M, NaN/negative "
+                "saturate to 0 (assumes a lies between the folded minimum m and maximum M of the same slice)" % (ln[0] - 1))
+    return None
+
+
 def discharge2(b, s):
     """Interval-based discharges (second line after `discharge`)."""
     t = s["term"]
@@ -369,6 +419,9 @@ def discharge2(b, s):
         ln = ival(b, lno, bb)
         if idx is not None and ln is not None and idx[0] >= 0 and idx[1] < ln[0]:
             return "index in [%s, %s] < length >= %s" % (idx[0], idx[1], ln[0])
+        r = _unit_ratio_index(b, b.origin(t["msg"]["index"]), ln, bb)
+        if r:
+            return r
     if k.startswith("assert:overflow:"):
         op = k.rsplit(":", 1)[1]
         a, c = t["msg"].get("a"), t["msg"].get("b")
